@@ -191,6 +191,15 @@ func (p *linProver) finish() {
 				if bl != nil && bl.lo != nil {
 					p.tighten(hi, new(big.Int).Add(bl.lo, big.NewInt(strict)), nil)
 				}
+			} else if lo.Op != OAdd {
+				// atom <= linear form whose mathematical interval is known (and free of wrap-around)
+				if ih := p.ivalOf(hi); inSigned(ih) {
+					p.tighten(lo, nil, new(big.Int).Sub(ih.hi, big.NewInt(strict)))
+				}
+			} else if hi.Op != OAdd {
+				if il := p.ivalOf(lo); inSigned(il) {
+					p.tighten(hi, new(big.Int).Add(il.lo, big.NewInt(strict)), nil)
+				}
 			}
 		}
 	}
